@@ -1032,6 +1032,10 @@ def sequences(ctx, which, n=None):
         k = rng.randint(2, 6)
         seq = [rng.choice(modes) for _ in range(k)]
         tracer = rng.choice(TRACERS)
+        if tracer != 'none':
+            # (under a trace function the program that lowers the recursion limit to its own depth leaves no room for the next line's
+            # callback - see _execute_case)
+            seq = [m for m in seq if m['mode'] != 'exception-after-lowering-the-recursion-limit'] or [modes[0]]
         body = PRELUDE + 'x = 5\n'
         try:
             sandbox, report = new_sandbox({'answer.py': body}, tracer, False)
